@@ -27,6 +27,20 @@ impl<A, D: Dimension> ArrayN<A, D> {
     pub fn ndim(&self) -> (n: usize)
     { unimplemented!() }
 
+    // layout-revealing methods: deliberately weak contracts (memory order is *some* permutation of the logical order;
+    // whether the array is contiguous is unknown), so that code which starts to depend on layout fails its postcondition
+    #[verifier::external_body]
+    pub fn as_slice(&self) -> (r: Option<&[A]>)
+        ensures r matches Some(s) ==> s@ == self@
+    { unimplemented!() }
+    #[verifier::external_body]
+    pub fn as_slice_memory_order(&self) -> (r: Option<&[A]>)
+        ensures r matches Some(s) ==> s@.to_multiset() == self@.to_multiset()
+    { unimplemented!() }
+    #[verifier::external_body]
+    pub fn is_standard_layout(&self) -> (b: bool)
+    { unimplemented!() }
+
     // the shape (axis lengths); arrays of equal shape have equally many elements
     pub uninterp spec fn shape_spec(&self) -> Seq<usize>;
     #[verifier::external_body]
